@@ -102,10 +102,10 @@ class _G:
                 pos2 = self.integers(0, len(branches))
                 branches = branches[:pos2] + [b2] + branches[pos2:]
             elif self.empty_break and self.chance(3):
-                # leave the loop straight from the decision point
-                pos2 = self.integers(0, len(branches))
-                branches = branches[:pos2] + [Seq((Break(),))] + \
-                    branches[pos2:]
+                # leave the loop straight from the decision point: the break
+                # branch carries no event of its own
+                branches = [Seq((Break(),)) if b is brk else b
+                            for b in branches]
             x = Fork("XOR", tuple(branches))
             body = (body
                     + ([Ev(self.name())]
